@@ -3,7 +3,7 @@
   * EINT intent envelope      (crates/echo-wasm-abi/src/lib.rs: pack_intent_v1 / unpack_intent_v1)
   * ELOG header and frame     (crates/echo-wasm-abi/src/eintlog.rs)
   * retained ingress envelope v2 (crates/warp-core/src/head_inbox.rs: to_retained_bytes_v2 /
-    from_retained_bytes_v2, including the re-encode gate = "causal parents strictly ascending")
+    from_retained_bytes_v2 with the constructor's sort+dedup and the byte-level re-encode gate; v1 legacy)
   Magics, versions, bounds and tag bytes come from Generated/LeMagic.lean.
 -/
 import EchoVerif.Model.Codec.Comb
@@ -79,20 +79,83 @@ def parentCmp : Parent → Parent → Ordering
   | .inr _, .inl _ => .gt
   | .inr a, .inr b => refCmp a b
 
-/-- what `sort_unstable(); dedup()` leaves unchanged — the re-encode gate of the reader -/
-def strictlySorted : List Parent → Bool
-  | a :: b :: rest => parentCmp a b == .lt && strictlySorted (b :: rest)
-  | _ => true
+instance instDecEqRef : DecidableEq Ref :=
+  let _i : DecidableEq (Bytes × Bytes × Bytes × Bytes) := inferInstance
+  inferInstance
+
+/-- `strictly ascending in the derived Ord` — what `sort_unstable(); dedup()` leaves unchanged.  This is
+    NOT the reader's gate (that is the byte comparison in `fromRetainedV2`); Props/C12 proves the
+    gate equivalent to it (`ingress_gate_iff_sorted`). -/
+abbrev strictlySorted : List Parent → Bool := strictlyAsc parentCmp
 
 /-- target, causal parents, intent kind, intent bytes -/
 abbrev Envelope := Target × List Parent × Bytes × Bytes
 
+/-- the cursor walk of `from_retained_bytes_v2` / the writer `to_retained_bytes_v2`: NO order check -/
+def ingressRaw : Codec Envelope :=
+  magic ingressMagicV2 (pair targetCodec
+    (pair (counted 8 (1 + receiptRefLen) parentCodec)
+      (magic [tagLocalIntent] (pair (fixed 32) (lenBytes 8 (256 ^ 8 - 1))))))
+
+/-- `causal_parents.sort_unstable(); causal_parents.dedup()` with the derived `Ord` -/
+abbrev canonParents (ps : List Parent) : List Parent := canonBy parentCmp ps
+
+/-- `IngressEnvelope::local_intent_with_causal_parents`: parents canonicalised as a set -/
+def mkEnvelope (e : Envelope) : Envelope := (e.1, canonParents e.2.1, e.2.2.1, e.2.2.2)
+
+/-- `to_retained_bytes_v2` -/
+def toRetainedV2 (e : Envelope) : Bytes := ingressRaw.enc e
+
+/-- `from_retained_bytes_v2`: walk the cursor (whole buffer), build the envelope with the
+    constructor (sort + dedup), RE-ENCODE it and compare with the input bytes -/
+def fromRetainedV2 (bs : Bytes) : Option Envelope :=
+  match decodeAll ingressRaw bs with
+  | none => none
+  | some raw =>
+    let env := mkEnvelope raw
+    if toRetainedV2 env = bs then some env else none
+
+/-- the predicate form of the same reader (order check instead of re-encode); proved equal to
+    `fromRetainedV2` on every input -/
 def ingressV2 : Codec Envelope :=
   magic ingressMagicV2 (pair targetCodec
     (pair (guard strictlySorted (counted 8 (1 + receiptRefLen) parentCodec))
       (magic [tagLocalIntent] (pair (fixed 32) (lenBytes 8 (256 ^ 8 - 1))))))
 
-/-- `IngressEnvelope::from_retained_bytes` on v2 material -/
-def fromRetainedV2 (bs : Bytes) : Option Envelope := decodeAll ingressV2 bs
+/-- NOT the gate: `retained parent records strictly ascending as raw byte strings` (tick fields are
+    little-endian, so this is a different relation — `ingress_byte_order_is_not_the_gate`) -/
+def bytesAscending : List Parent → Bool
+  | a :: b :: rest => Cbor.bytesCmp (parentCodec.enc a) (parentCodec.enc b) == .lt && bytesAscending (b :: rest)
+  | _ => true
+
+/-! ### retained ingress envelope v1 (legacy): parents are bare receipt digests -/
+
+/-- target, legacy parent digests, kind, intent bytes -/
+abbrev EnvelopeV1 := Target × List Bytes × Bytes × Bytes
+
+def ingressV1Raw : Codec EnvelopeV1 :=
+  magic ingressMagicV1 (pair targetCodec
+    (pair (counted 8 (1 + 32) (magic [tagTickReceipt] (fixed 32)))
+      (magic [tagLocalIntent] (pair (fixed 32) (lenBytes 8 (256 ^ 8 - 1))))))
+
+/-- the canonical v1 form of a parentless envelope: its v2 bytes with the magic overwritten -/
+def toRetainedV1 (e : Envelope) : Bytes := ingressMagicV1 ++ (toRetainedV2 e).drop ingressMagicV1.length
+
+/-- `from_retained_bytes_v1`: any legacy parent is refused (NonCanonical or
+    AmbiguousLegacyTickReceiptParent); a parentless record is rebuilt and re-encoded -/
+def fromRetainedV1 (bs : Bytes) : Option Envelope :=
+  match decodeAll ingressV1Raw bs with
+  | none => none
+  | some raw =>
+    if raw.2.1 ≠ [] then none else
+    let env : Envelope := mkEnvelope (raw.1, [], raw.2.2.1, raw.2.2.2)
+    if toRetainedV1 env = bs then some env else none
+
+/-- `IngressEnvelope::from_retained_bytes`: dispatch on the 8-byte magic -/
+def fromRetained (bs : Bytes) : Option Envelope :=
+  if bs.length < ingressMagicV2.length then none
+  else if bs.take ingressMagicV2.length = ingressMagicV2 then fromRetainedV2 bs
+  else if bs.take ingressMagicV1.length = ingressMagicV1 then fromRetainedV1 bs
+  else none
 
 end EchoVerif.Codec
